@@ -674,7 +674,12 @@ def r_kill_tree(e, R):
     fr = e.prog.func(U + "_posix_recursive_kill")
     gr = e.cfg(fr)
     enum = [n for n in gr.nodes for c in calls_in(n) if isinstance(c.func, ast.Attribute) and c.func.attr == "check_output"]
-    selfk = [n for n in gr.nodes for c in calls_in(n) if e.callees_of(c) & {U + "_kill"}]
+    killers = {q for n in func_nodes(fr) if isinstance(n, ast.Call) for q in e.callees_of(n)
+               if q != fr.qualname and any(isinstance(x, ast.Call) and norm(x.func) == "os.kill" for x in func_nodes(e.prog.funcs[q]))}
+    if len(killers) != 1:
+        raise AnalysisError(f"{fr.short}: the helper sending the kill signal is not unique: {sorted(killers)}")
+    KILLQ = killers.pop()
+    selfk = [n for n in gr.nodes for c in calls_in(n) if e.callees_of(c) & {KILLQ}]
     recs = [n for n in gr.nodes for c in calls_in(n) if e.callees_of(c) & {fr.qualname}]
     R.check(bool(enum) and bool(selfk) and bool(recs) and all(any(gr.dominates(x, k) for x in enum) for k in selfk)
             and not any(gr.path_exists(k, lambda n: n in recs or n in enum) for k in selfk),
@@ -731,7 +736,7 @@ def r_kill_tree(e, R):
                         + ("" if own else " around the whole loop") + ": a descendant (or the worker) that exited in the meantime raises "
                         "NoSuchProcess, the remaining processes are not killed and the worker is joined alive", e.loc(fp, c))
     # _kill: the signal is sent to the pid it was given; only ESRCH is swallowed
-    fk = e.prog.func(U + "_kill")
+    fk = e.prog.funcs[KILLQ]
     gk = e.cfg(fk)
     oskill = lambda n: any(norm(c.func) == "os.kill" and c.args and isinstance(c.args[0], ast.Name) and c.args[0].id == fk.params[0] for c in calls_in(n))
     esc = gk.escape_path(gk.entry, oskill, use_exc=False)
@@ -752,8 +757,8 @@ def r_kill_tree(e, R):
             f"{fk.short}: the handler around os.kill catches OSError (ESRCH is an OSError)", fk.short, f"except {[norm(h.ast.type) for h in hk]}",
             "a process that already exited raises ProcessLookupError out of the tree kill: the rest of the tree is not killed", e.loc(fk, fk.node))
     for h in hk:
-        ok1 = gk.find_path(h, reraise, use_exc=False, edge_ok=SC.Facts([], [esrch(True)]).edge_ok()) is None
-        ok2 = gk.escape_path(h, reraise, use_exc=False, edge_ok=SC.Facts([], [esrch(False)]).edge_ok()) is None and any(reraise(n) for n in gk.nodes)
+        ok1 = SC.Facts([], [esrch(True)]).find(gk, h, reraise, use_exc=False) is None
+        ok2 = SC.Facts([], [esrch(False)]).escape(gk, h, reraise, use_exc=False) is None and any(reraise(n) for n in gk.nodes)
         R.check(ok1, "R-KILL-TREE", f"{fk.short}: 'no such process' is not an error", fk.short, "errno == ESRCH", "a process that already exited aborts the kill of the rest of the tree",
                 e.loc(fk, h.ast))
         R.check(ok2, "R-KILL-TREE", f"{fk.short}: any other error is raised (so that the caller falls back to killing the worker itself)", fk.short, "errno != ESRCH: raise",
@@ -772,9 +777,9 @@ def r_kill_tree(e, R):
             "R-KILL-TREE", f"{fr.short}: the handler around pgrep catches CalledProcessError (exit status 1 = no children)", fr.short,
             f"except {[norm(h.ast.type) for h in hr]}", "pgrep's 'no children' exit status raises out of the tree kill for every leaf process", e.loc(fr, fr.node))
     for h in hr:
-        ok1 = gr.find_path(h, reraise, use_exc=False, edge_ok=SC.Facts([], [noch(True)]).edge_ok()) is None and \
+        ok1 = SC.Facts([], [noch(True)]).find(gr, h, reraise, use_exc=False) is None and \
             gr.find_path(h, lambda n: n in selfk, use_exc=False, edge_ok=SC.Facts([], [noch(True)]).edge_ok()) is not None
-        ok2 = gr.escape_path(h, reraise, use_exc=False, edge_ok=SC.Facts([], [noch(False)]).edge_ok()) is None and any(reraise(n) for n in gr.nodes)
+        ok2 = SC.Facts([], [noch(False)]).escape(gr, h, reraise, use_exc=False) is None and any(reraise(n) for n in gr.nodes)
         R.check(ok1, "R-KILL-TREE", f"{fr.short}: a childless process (pgrep exit status 1) is still killed", fr.short, "returncode == 1", "leaf processes of the tree are never killed",
                 e.loc(fr, h.ast))
         R.check(ok2, "R-KILL-TREE", f"{fr.short}: a failing pgrep is reported to the caller", fr.short, "returncode != 1: raise",
